@@ -126,6 +126,11 @@ def store_graph(repo):
                 continue  # constructor: the field is initialised
             escapes = True
             notes.append(f"continuities.rs: `event_log` used in an unclassified way in fn {n}: ...{pre[-15:]}event_log{post[:25]}")
+    # `self` handed on as a value (argument, clone, closure capture by name): callee unknown to this graph
+    for n, b in fns.items():
+        for mm in re.finditer(r"\bself\b(?!\s*\.)", b):
+            escapes = True
+            notes.append(f"continuities.rs: bare `self` (not `self.<x>`) in fn {n}: ...{b[max(0, mm.start() - 25):mm.end() + 15].strip()}")
     reach = {n: (n in direct) for n in fns}
     changed = True
     while changed:
@@ -136,7 +141,42 @@ def store_graph(repo):
                 changed = True
     notes.append(f"continuities.rs: {len(fns)} methods, {len(direct)} append directly: " + " ".join(sorted(direct)))
     notes.append("methods that can reach event_log.append: " + " ".join(sorted(n for n in fns if reach[n])))
+    store_graph.edges = edges
     return fns, reach, escapes, notes
+
+
+def closure_from(edges, roots):
+    seen = set()
+    todo = [r for r in roots if r in edges]
+    while todo:
+        n = todo.pop()
+        if n in seen:
+            continue
+        seen.add(n)
+        todo.extend(edges[n] - seen)
+    return seen
+
+
+def shared_helpers(fns, reach):
+    """methods of impl ContinuityStore that are reachable (reflexively) from a method of a READ-ONLY
+    capability AND from a method of a capability that may append, each with its "can reach an append" bit.
+    One row per helper: a helper a status call shares with the scheduler must itself be unable to append."""
+    edges = store_graph.edges
+    ro_roots, ap_roots = set(), set()
+    for cap, methods in CAPS:
+        (ro_roots if cap in READ_ONLY else ap_roots).update(methods)
+    from_ro = {}
+    for r in sorted(ro_roots):
+        for n in closure_from(edges, [r]):
+            from_ro.setdefault(n, []).append(r)
+    from_ap = {}
+    for r in sorted(ap_roots):
+        for n in closure_from(edges, [r]):
+            from_ap.setdefault(n, []).append(r)
+    rows = []
+    for n in sorted(set(from_ro) & set(from_ap)):
+        rows.append((n, bool(reach.get(n, True)), from_ro[n], from_ap[n]))
+    return rows
 
 
 def cache_touches_log(repo):
@@ -287,6 +327,9 @@ def main():
         rows.append((cap, r))
     hits = cache_touches_log(a.repo)
     notes += hits
+    shared = [] if fns is None else shared_helpers(fns, reach)
+    for n, r, ro, ap in shared:
+        notes.append(f"shared helper {n}: can append = {r}; read-only callers: {' '.join(ro)}; appending callers: {' '.join(ap[:6])}{' ..' if len(ap) > 6 else ''}")
     routes, rnotes = (None, []) if fns is None else route_table(a.repo, fns, reach)
     notes += rnotes
     try:
@@ -296,6 +339,7 @@ def main():
     notes += gnotes
     L = ["(* GENERATED by tools/gen/callgraph.py from crates/ripd/src/continuities.rs, server.rs and the cache modules - do not edit.",
          "   Which capability / route can reach `self.event_log.append` (C02, T1). *)",
+         "From Coq Require Import String.",
          "From RipV Require Import Base.Prelude Model.Frames Model.Log Model.ContStore Model.CapEffects.", "",
          "Definition gen_cap_reaches_append : list (cap * bool) :=",
          "  [" + ";\n   ".join(f"({c}, {cb(r)})" for c, r in rows) + "].", "",
@@ -307,6 +351,13 @@ def main():
          "  effects_agree gen_cap_reaches_append && negb gen_event_log_escapes && negb gen_cache_modules_name_the_log = true.",
          "Proof. vm_compute. reflexivity. Qed.", "",
          "Lemma gen_routes_ok : routes_agree gen_route_reaches_append = true.",
+         "Proof. vm_compute. reflexivity. Qed.", "",
+         "(* every method of impl ContinuityStore that a READ-ONLY capability shares with a capability that may append",
+         "   (reachable from both, the capabilities' own functions included): name, can it reach self.event_log.append.",
+         "   An empty table means the store's methods were not found: the obligation fails. *)",
+         "Definition gen_shared_helpers : list (string * bool) :=",
+         "  [" + ";\n   ".join(f'("{n}"%string, {cb(r)})' for n, r, _, _ in shared) + "].", "",
+         "Lemma gen_shared_helpers_ok : shared_helpers_silent gen_shared_helpers = true.",
          "Proof. vm_compute. reflexivity. Qed.", "",
          "(* which ids get a cache file (Model/SidecarInv.v): every rebuild_best_effort call of continuities.rs is inside",
          "   `if !events.is_empty()`; append_best_effort keys the file by the stream id of the event it is given",
